@@ -1046,6 +1046,7 @@ func c18EscapeChain(c *Ctx, r *Report, clause string) {
 		return "", false
 	}
 	why := ""
+	var missingSep []string
 	for _, p := range paths {
 		if p.Kind != "return" || len(p.Vals) != 1 {
 			continue
@@ -1053,7 +1054,7 @@ func c18EscapeChain(c *Ctx, r *Report, clause string) {
 		pairs := map[string]string{}
 		t := p.Vals[0]
 		reachedIn := false
-		for k := 0; k < 8 && t != nil; k++ {
+		for k := 0; k < 12 && t != nil; k++ {
 			if t.String() == "IN" {
 				reachedIn = true
 				break
@@ -1106,6 +1107,11 @@ func c18EscapeChain(c *Ctx, r *Report, clause string) {
 				t = nil
 			}
 		}
+		for _, ch := range []string{"|", "{", "}"} {
+			if pairs[ch] != "\\"+ch {
+				missingSep = append(missingSep, ch)
+			}
+		}
 		switch {
 		case !reachedIn:
 			why = "the returned text is not the argument passed through a chain of replacements (" + p.Vals[0].String() + ")"
@@ -1116,4 +1122,10 @@ func c18EscapeChain(c *Ctx, r *Report, clause string) {
 	r.Check(why == "", clause, "R1 PROVENANCE", key, c.pos(f.Decl.Pos()),
 		"the text is returned with `<` and `>` both escaped (the second replacement works on the result of the first)",
 		"a symbol name reaches a DOT record label with an unescaped angle bracket: "+why+" — Graphviz then rejects the label and draws the state without its items and reductions")
+	// the other metacharacters of a record label: `|` separates fields, `{` `}` nest them (clause C18.e: a known finding)
+	m := dedupStrings(missingSep)
+	sortStrings(m)
+	r.Check(len(m) == 0, "C18.e", "R1 PROVENANCE", f.Name+"/record-separators-escaped", c.pos(f.Decl.Pos()),
+		"`|`, `{` and `}` are escaped too: a literal token with one of them stays inside its field of the record label",
+		fmt.Sprintf("the characters %v reach a DOT record label unescaped: a grammar with the literal token '|' (or '{', '}') splits or nests a field of its state node, so the node no longer shows exactly the items of the state", m))
 }
